@@ -710,3 +710,156 @@ def replay_pp(model, params, clause, info):
         bad |= not ok
     return {"violates": bad, "detail": "; ".join(detail),
             "entry": {"module": "contracts.C05_kernels", "function": "replay_pp", "args": [model, list(params), clause, info]}}
+
+
+@case("C05", clause="polynomial_grad", expand=lambda ix: [(d, p) for d in (1, 2) for p in (2, 3)], replay=lambda *a: replay_polygrad(*a), timeout=600,
+      functions=[f"{KM}.polynomial_kernel_grad.PolynomialKernelGrad.forward"])
+def polynomial_grad(c, dval, power):
+    """k = (x1^T x2 + c)^p with its first derivatives, in the interleaved layout (row i*(d+1) is the value at x1_i, row i*(d+1)+1+a the derivative w.r.t. x1_i[a]):
+        [i*(d+1), j*(d+1)]           = b^p                                     b = x1_i . x2_j + c
+        [i*(d+1), j*(d+1)+1+a]       = p b^(p-1) x1_i[a]                       (d/d x2_j[a])
+        [i*(d+1)+1+a, j*(d+1)]       = p b^(p-1) x2_j[a]                       (d/d x1_i[a])
+        [i*(d+1)+1+a, j*(d+1)+1+e]   = p (p-1) b^(p-2) x2_j[a] x1_i[e] + p b^(p-1) [a == e]
+    for symbolic n1, n2 and concrete input dimension d (the code loops over d)"""
+    it, ctx = c.it, c.ctx
+    n1, n2 = c.size("n1"), c.size("n2")
+    c.assume(z3.And(n1.t >= 1, n2.t >= 1))
+    d = z3.IntVal(dval)
+    x1, x2 = sym_tensor("x1", [n1.t, d]), sym_tensor("x2", [n2.t, d])
+    off = pos_tensor(c, "offset", [z3.IntVal(1)])
+    o = kernel_obj(c, f"{KM}.polynomial_kernel_grad.PolynomialKernelGrad", [], {"offset": off}, power=VNum(power))
+    res = run_forward(c, o, x1, x2, False)
+    okr = len(res.dims) == 2
+    c.prove("polynomial_grad.shape", z3.And(res.dims[0].size == n1.t * (dval + 1), res.dims[1].size == n2.t * (dval + 1)) if okr else z3.BoolVal(False))
+    if not okr:
+        return
+    i, j = ivar("i"), ivar("j")
+    c.assume(z3.And(i >= 0, i < n1.t, j >= 0, j < n2.t))
+    base = sum((x1.at([i, z3.IntVal(k)]) * x2.at([j, z3.IntVal(k)]) for k in range(dval)), z3.RealVal(0)) + off.at([z3.IntVal(0)])
+
+    def pw(e):
+        r = z3.RealVal(1)
+        for _ in range(e):
+            r = r * base
+        return r
+
+    S = dval + 1
+    c.prove("polynomial_grad.value_block", res.at_dims([i * S, j * S]) == pw(power))
+    for a in range(dval):
+        c.prove(f"polynomial_grad.d_dx2[{a}]", res.at_dims([i * S, j * S + 1 + a]) == power * pw(power - 1) * x1.at([i, z3.IntVal(a)]))
+        c.prove(f"polynomial_grad.d_dx1[{a}]", res.at_dims([i * S + 1 + a, j * S]) == power * pw(power - 1) * x2.at([j, z3.IntVal(a)]))
+        for e in range(dval):
+            c.prove(f"polynomial_grad.d2_dx1[{a}]_dx2[{e}]", res.at_dims([i * S + 1 + a, j * S + 1 + e])
+                    == power * (power - 1) * pw(power - 2) * x2.at([j, z3.IntVal(a)]) * x1.at([i, z3.IntVal(e)]) + (power * pw(power - 1) if a == e else 0))
+
+
+def replay_polygrad(model, params, clause, info):
+    """real PolynomialKernelGrad against autograd of (x1 . x2 + c)^p (value, both gradients, mixed second derivatives) in the interleaved layout"""
+    import torch
+    import gpytorch
+    dval, power = params
+    torch.manual_seed(2)
+    n1, n2 = 3, 2
+    k = gpytorch.kernels.PolynomialKernelGrad(power=power).double()
+    k.offset = 0.7
+    x1 = torch.randn(n1, dval, dtype=torch.double)
+    x2 = torch.randn(n2, dval, dtype=torch.double)
+    with torch.no_grad():
+        K = k(x1, x2).to_dense()
+    S = dval + 1
+    want = torch.zeros(n1 * S, n2 * S, dtype=torch.double)
+    c0 = float(k.offset)
+    for i in range(n1):
+        for j in range(n2):
+            a = x1[i].clone().requires_grad_(True)
+            b = x2[j].clone().requires_grad_(True)
+            f = (a @ b + c0) ** power
+            ga, gb = torch.autograd.grad(f, (a, b), create_graph=True)
+            want[i * S, j * S] = f.detach()
+            want[i * S, j * S + 1:j * S + S] = gb.detach()
+            want[i * S + 1:i * S + S, j * S] = ga.detach()
+            for q in range(dval):
+                (h,) = torch.autograd.grad(ga[q], b, retain_graph=True)
+                want[i * S + 1 + q, j * S + 1:j * S + S] = h
+    err = (K - want).abs().max().item()
+    bad = K.shape != want.shape or err > 1e-9
+    return {"violates": bool(bad), "detail": f"PolynomialKernelGrad(power={power}) in d={dval}: max |K - autograd reference| = {err:.3e}",
+            "entry": {"module": "contracts.C05_kernels", "function": "replay_polygrad", "args": [model, list(params), clause, info]}}
+
+
+@case("C05", clause="rbf_grad", expand=lambda ix: [(d, ard) for d in (1, 2) for ard in (False, True) if not (ard and d == 1)], replay=lambda *a: replay_rbfgrad(*a), timeout=900,
+      functions=[f"{KM}.rbf_kernel_grad.RBFKernelGrad.forward"])
+def rbf_grad(c, dval, ard):
+    """k = exp(-1/2 sum_k ((x1_k - x2_k)/l_k)^2) with its first derivatives, interleaved layout, x1 != x2 (no symmetrisation), symbolic n1, n2, concrete d;
+    with u_a = (x1_i[a] - x2_j[a]) / l_a^2:
+        value                       k
+        d/d x2_j[a]                 u_a k
+        d/d x1_i[a]                -u_a k
+        d2/d x1_i[a] d x2_j[e]      ([a == e] / l_a^2 - u_a u_e) k"""
+    it, ctx = c.it, c.ctx
+    n1, n2 = c.size("n1"), c.size("n2")
+    c.assume(z3.And(n1.t >= 1, n2.t >= 1))
+    c.assume(n1.t != n2.t, "RBFKernelGrad is verified for x1 != x2 with different numbers of points (the branch that symmetrises K for x1 == x2 is covered by the bounded tier)")
+    d = z3.IntVal(dval)
+    x1, x2 = sym_tensor("x1", [n1.t, d]), sym_tensor("x2", [n2.t, d])
+    ls, lsf0 = lengthscale(c, [], d, ard)
+    lsf = lsf0([])
+    o = kernel_obj(c, f"{KM}.rbf_kernel_grad.RBFKernelGrad", [], {"lengthscale": ls}, ard_num_dims=(VNum(d) if ard else NONE))
+    DistContract(c, o)
+    c.it.optable["hook.torch.equal"] = lambda it_, ctx_, a, k: FALSE
+    c.it.optable["hook.torch.eq_all"] = lambda it_, ctx_, a, k: FALSE
+    res = run_forward(c, o, x1, x2, False)
+    okr = len(res.dims) == 2
+    c.prove("rbf_grad.shape", z3.And(res.dims[0].size == n1.t * (dval + 1), res.dims[1].size == n2.t * (dval + 1)) if okr else z3.BoolVal(False))
+    if not okr:
+        return
+    i, j = ivar("i"), ivar("j")
+    c.assume(z3.And(i >= 0, i < n1.t, j >= 0, j < n2.t))
+    div = lambda a_, b_: dom_real.rdiv(ctx, a_, b_)  # noqa: E731
+    q = lambda k_: div(x1.at([i, z3.IntVal(k_)]) - x2.at([j, z3.IntVal(k_)]), lsf(z3.IntVal(k_)))  # noqa: E731
+    r2 = sum((q(k_) * q(k_) for k_ in range(dval)), z3.RealVal(0))
+    kv = dom_real.apply(ctx, "exp", -r2 / 2)
+    u = lambda a_: div(q(a_), lsf(z3.IntVal(a_)))  # noqa: E731
+    S = dval + 1
+    rd = lambda r_, c_: E.resolve_ites(ctx, res.at_dims([r_, c_]))  # noqa: E731  (the entry read at a fixed block position: index conditions of the block assembly are decided by the path condition)
+    c.prove_identity("rbf_grad.value_block", rd(i * S, j * S), kv, cas_first=True)
+    for a in range(dval):
+        c.prove_identity(f"rbf_grad.d_dx2[{a}]", rd(i * S, j * S + 1 + a), u(a) * kv, cas_first=True)
+        c.prove_identity(f"rbf_grad.d_dx1[{a}]", rd(i * S + 1 + a, j * S), -u(a) * kv, cas_first=True)
+        for e in range(dval):
+            delta = div(z3.RealVal(1), lsf(z3.IntVal(a)) * lsf(z3.IntVal(a))) if a == e else z3.RealVal(0)
+            c.prove_identity(f"rbf_grad.d2_dx1[{a}]_dx2[{e}]", rd(i * S + 1 + a, j * S + 1 + e), (delta - u(a) * u(e)) * kv, cas_first=True)
+
+
+def replay_rbfgrad(model, params, clause, info):
+    """real RBFKernelGrad against autograd of the RBF kernel (value, both gradients, mixed second derivatives), interleaved layout, x1 != x2"""
+    import torch
+    import gpytorch
+    dval, ard = params
+    torch.manual_seed(4)
+    n1, n2 = 3, 2
+    k = gpytorch.kernels.RBFKernelGrad(ard_num_dims=(dval if ard else None)).double()
+    ls = torch.linspace(0.6, 1.3, dval if ard else 1, dtype=torch.double).reshape(1, -1)
+    k.lengthscale = ls
+    x1 = torch.randn(n1, dval, dtype=torch.double)
+    x2 = torch.randn(n2, dval, dtype=torch.double)
+    with torch.no_grad():
+        K = k(x1, x2).to_dense()
+    S = dval + 1
+    want = torch.zeros(n1 * S, n2 * S, dtype=torch.double)
+    for i in range(n1):
+        for j in range(n2):
+            a = x1[i].clone().requires_grad_(True)
+            b = x2[j].clone().requires_grad_(True)
+            f = torch.exp(-0.5 * (((a - b) / ls.reshape(-1)) ** 2).sum())
+            ga, gb = torch.autograd.grad(f, (a, b), create_graph=True)
+            want[i * S, j * S] = f.detach()
+            want[i * S, j * S + 1:j * S + S] = gb.detach()
+            want[i * S + 1:i * S + S, j * S] = ga.detach()
+            for q in range(dval):
+                (h,) = torch.autograd.grad(ga[q], b, retain_graph=True)
+                want[i * S + 1 + q, j * S + 1:j * S + S] = h
+    err = (K - want).abs().max().item()
+    bad = K.shape != want.shape or err > 1e-9
+    return {"violates": bool(bad), "detail": f"RBFKernelGrad(ard={ard}) in d={dval}: max |K - autograd reference| = {err:.3e}",
+            "entry": {"module": "contracts.C05_kernels", "function": "replay_rbfgrad", "args": [model, list(params), clause, info]}}
